@@ -6,7 +6,10 @@
 //   - the Lean driver answers from the table:  racy | sync          (its verdict, see LockSet.verdict)
 //   - the implementation side answers from the race detector: the harness builds cmd/c44race with `go build -race`, lets it
 //     hammer entry-point pairs that reach fnA and fnB on shared objects, parses the `WARNING: DATA RACE` reports and maps
-//     each to a triple through the table's (file, line) rows: racy if a report maps to the triple, else sync.
+//     each to a triple: the LOCATION from the report's address (inside which Round/Block object of the scenario, which
+//     field by the struct's reflect offsets; for slice/map elements and ValidateTransactions' closure variables through
+//     the table's file:line rows), the FUNCTIONS from the innermost round/block frames of the two stacks. racy iff a
+//     report maps to the triple, else sync.
 //
 // A disagreement "model sync / detector racy" means the extractor is unsound there (VIOLATION); "model racy / detector
 // sync" means the table is imprecise there or the schedule search missed it (BROKEN correspondence — fix the scenario
@@ -29,6 +32,7 @@ import (
 	"strconv"
 	"strings"
 	"sync"
+	"time"
 
 	"verifharness/lib/corr"
 )
@@ -85,13 +89,13 @@ var notDriven = map[string]string{
 	// elements. On the real code the slices are already ordered by rank (AddNotarizedBlock / addProposedBlock keep them
 	// so, and a block's RoundRank does not change), so the stable sort never swaps and the detector has nothing to
 	// see: conservative rows, NOT findings.
-	"pair Round.notarizedBlocks[] Round.Clone Round.GetBestRankedNotarizedBlock":                         sortedAlready,
-	"pair Round.notarizedBlocks[] Round.GetBestRankedNotarizedBlock Round.GetBestRankedNotarizedBlock":   sortedAlready,
-	"pair Round.notarizedBlocks[] Round.GetBestRankedNotarizedBlock Round.GetHeaviestNotarizedBlock":     sortedAlready,
-	"pair Round.notarizedBlocks[] Round.GetBestRankedNotarizedBlock Round.GetNotarizedBlocks":            sortedAlready,
-	"pair Round.proposedBlocks[] Round.Clone Round.GetBestRankedProposedBlock":                           sortedAlready,
-	"pair Round.proposedBlocks[] Round.GetBestRankedProposedBlock Round.GetBestRankedProposedBlock":      sortedAlready,
-	"pair Round.proposedBlocks[] Round.GetBestRankedProposedBlock Round.GetProposedBlocks":               sortedAlready,
+	"pair Round.notarizedBlocks[] Round.Clone Round.GetBestRankedNotarizedBlock":                       sortedAlready,
+	"pair Round.notarizedBlocks[] Round.GetBestRankedNotarizedBlock Round.GetBestRankedNotarizedBlock": sortedAlready,
+	"pair Round.notarizedBlocks[] Round.GetBestRankedNotarizedBlock Round.GetHeaviestNotarizedBlock":   sortedAlready,
+	"pair Round.notarizedBlocks[] Round.GetBestRankedNotarizedBlock Round.GetNotarizedBlocks":          sortedAlready,
+	"pair Round.proposedBlocks[] Round.Clone Round.GetBestRankedProposedBlock":                         sortedAlready,
+	"pair Round.proposedBlocks[] Round.GetBestRankedProposedBlock Round.GetBestRankedProposedBlock":    sortedAlready,
+	"pair Round.proposedBlocks[] Round.GetBestRankedProposedBlock Round.GetProposedBlocks":             sortedAlready,
 	// ValidateState reads b.Round only to log that the change set's root is nil or differs from the state's root —
 	// branches a consistent trie never takes
 	"pair Block.Round Block.SetPreviousBlock block.ValidateState": "read only on an error-logging path that a consistent state never takes",
@@ -118,10 +122,11 @@ var (
 	foreign   []string
 	ambiguous []string
 	hangs     []string
+	crashes   []string
 	panics    []string
 	nReports  int
 	nScen     int
-	iters     = 120
+	iters     = 100
 	childBin  string
 	childErr  string
 )
@@ -289,11 +294,12 @@ func tail(s string, n int) string {
 }
 
 // plan: entry pairs to run so that every triple is covered by up to `per` pairs of drivable entries.
-func plan(ts []triple, per int) (pairs [][2]string, covered map[triple]int) {
+func plan(ts []triple, perOf func(triple) int) (pairs [][2]string, covered map[triple]int) {
 	covered = map[triple]int{}
 	seen := map[[2]string]bool{}
 	for _, t := range ts {
 		n := 0
+		per := perOf(t)
 		for _, ea := range reach[t.a] {
 			for _, eb := range reach[t.b] {
 				if n >= per {
@@ -670,28 +676,59 @@ func min(a, b int) int {
 	return b
 }
 
-// search: put the triples before the race detector; then, for those the MODEL calls racy and the detector has not shown
-// yet, search harder (every pair of entries that reaches the two functions, more iterations) — twice. The model's
-// verdict only decides where more search effort goes; the answer of the implementation side is what the detector
-// reported, nothing else.
-func search(ts []triple, per int) {
-	runTriples(ts, per, 1, false)
-	if zdrvDir == "" || childErr != "" {
+// search: put the triples before the race detector — two entry pairs for those the MODEL calls racy, one for the
+// others (thorough: six / three); then, for those the model calls racy and the detector has not shown yet, search
+// harder (every pair of entries that reaches the two functions, more iterations) — twice. The model's verdict only
+// decides where the search effort goes; the answer of the implementation side is what the detector reported.
+func search(all []triple, thorough bool) {
+	var ts []triple
+	mu.Lock()
+	for _, t := range all {
+		if !executed[t] {
+			ts = append(ts, t)
+		}
+	}
+	mu.Unlock()
+	if len(ts) == 0 {
 		return
 	}
-	for round, mult := range []int{3, 8} {
+	verdict := map[triple]string{}
+	ask := func() bool {
+		if zdrvDir == "" {
+			return false
+		}
 		var ops []string
 		for _, t := range ts {
 			ops = append(ops, "init", t.op())
 		}
 		outs, err := corr.RunModel(zdrvDir, "C44", ops)
 		if err != nil {
-			return
+			return false
 		}
+		for i, t := range ts {
+			verdict[t] = outs[2*i+1]
+		}
+		return true
+	}
+	haveModel := ask()
+	perR, perS := 2, 1
+	if thorough {
+		perR, perS = 6, 3
+	}
+	runTriples(ts, func(t triple) int {
+		if !haveModel || verdict[t] == "racy" {
+			return perR
+		}
+		return perS
+	}, 1, false)
+	if !haveModel || childErr != "" {
+		return
+	}
+	for round, mult := range []int{3, 8} {
 		var missing []triple
 		mu.Lock()
-		for i, t := range ts {
-			if _, seen := observed[t]; !seen && outs[2*i+1] == "racy" {
+		for _, t := range ts {
+			if _, seen := observed[t]; !seen && verdict[t] == "racy" {
 				missing = append(missing, t)
 			}
 		}
@@ -703,16 +740,18 @@ func search(ts []triple, per int) {
 		for _, t := range missing {
 			retriedOps = append(retriedOps, fmt.Sprintf("round %d: %s", round+1, t.op()))
 		}
-		runTriples(missing, 1000, mult, true)
+		runTriples(missing, func(triple) int { return 1000 }, mult, true)
 	}
 }
 
+var timing = map[string]float64{}
 var zdrvDir string
+var thoroughTier bool
 var retried [2]int
 var retriedOps []string
 
 // runTriples: run the scenarios that cover the given triples (once per triple unless force).
-func runTriples(ts []triple, per int, mult int, force bool) {
+func runTriples(ts []triple, per func(triple) int, mult int, force bool) {
 	mu.Lock()
 	defer mu.Unlock()
 	var todo []triple
@@ -725,35 +764,69 @@ func runTriples(ts []triple, per int, mult int, force bool) {
 		return
 	}
 	if childBin == "" {
+		t0 := time.Now()
 		if err := buildChild(); err != nil {
 			childErr = err.Error()
 			return
 		}
+		timing["build_child_s"] = time.Since(t0).Seconds()
 	}
 	pairs, _ := plan(todo, per)
-	var in bytes.Buffer
-	for _, p := range pairs {
-		fmt.Fprintf(&in, "%s %s\n", p[0], p[1])
-	}
-	cmd := exec.Command(childBin, strconv.Itoa(iters*mult))
-	cmd.Stdin = &in
-	cmd.Env = append(os.Environ(), "GORACE=halt_on_error=0 history_size=5 suppress_equal_addresses=0")
-	var errb bytes.Buffer
-	cmd.Stderr = &errb
-	cmd.Stdout = &errb
-	err := cmd.Run()
-	log := errb.String()
-	if !strings.Contains(log, "=== DONE") {
-		childErr = fmt.Sprintf("c44race did not finish: %v\n%s", err, tail(log, 2000))
-		return
-	}
-	if os.Getenv("C44_KEEP_LOG") != "" {
-		if f, err := os.OpenFile(os.Getenv("C44_KEEP_LOG"), os.O_APPEND|os.O_CREATE|os.O_WRONLY, 0o644); err == nil {
-			f.Write(errb.Bytes())
-			f.Close()
+	// the child may die in the middle of a scenario (the Go runtime aborts on a concurrent map read/write): that
+	// scenario is recorded as a crash and the child is restarted with the pairs that follow it
+	for attempt := 0; len(pairs) > 0 && attempt < 12; attempt++ {
+		var in bytes.Buffer
+		for _, p := range pairs {
+			fmt.Fprintf(&in, "%s %s\n", p[0], p[1])
 		}
+		cmd := exec.Command(childBin, strconv.Itoa(iters*mult))
+		cmd.Stdin = &in
+		cmd.Env = append(os.Environ(), "GORACE=halt_on_error=0 history_size=5 suppress_equal_addresses=0")
+		var errb bytes.Buffer
+		cmd.Stderr = &errb
+		cmd.Stdout = &errb
+		t1 := time.Now()
+		err := cmd.Run()
+		timing[fmt.Sprintf("child_run_%d_s", len(timing))] = time.Since(t1).Seconds()
+		log := errb.String()
+		if os.Getenv("C44_KEEP_LOG") != "" {
+			if f, err := os.OpenFile(os.Getenv("C44_KEEP_LOG"), os.O_APPEND|os.O_CREATE|os.O_WRONLY, 0o644); err == nil {
+				f.Write(errb.Bytes())
+				f.Close()
+			}
+		}
+		t2 := time.Now()
+		parseLog(log, tab.Gosrc)
+		timing[fmt.Sprintf("parse_%d_s", len(timing))] = time.Since(t2).Seconds()
+		if strings.Contains(log, "=== DONE") {
+			break
+		}
+		// which scenario was running?
+		last := -1
+		var lastPair [2]string
+		for _, l := range strings.Split(log, "\n") {
+			if strings.HasPrefix(l, "=== SCEN ") {
+				w := strings.Fields(l)
+				if len(w) >= 5 {
+					last, _ = strconv.Atoi(w[2])
+					lastPair = [2]string{w[3], w[4]}
+				}
+			}
+		}
+		fatal := ""
+		for _, l := range strings.Split(log, "\n") {
+			if strings.HasPrefix(l, "fatal error:") || strings.HasPrefix(l, "panic:") {
+				fatal = l
+				break
+			}
+		}
+		if last < 0 || last >= len(pairs) {
+			childErr = fmt.Sprintf("c44race did not finish: %v\n%s", err, tail(log, 2000))
+			return
+		}
+		crashes = append(crashes, fmt.Sprintf("%s %s: %s", lastPair[0], lastPair[1], fatal))
+		pairs = pairs[last+1:]
 	}
-	parseLog(log, tab.Gosrc)
 	for _, t := range todo {
 		executed[t] = true
 	}
@@ -774,7 +847,7 @@ func impl(ops []string) []string {
 			need = append(need, t)
 		}
 	}
-	search(need, 3)
+	search(need, thoroughTier)
 	outs := make([]string, len(ops))
 	for i, op := range ops {
 		switch {
@@ -842,6 +915,7 @@ func main() {
 	if thorough {
 		iters = 500
 	}
+	thoroughTier = thorough
 	loadTable()
 	all := candidates()
 	var ts []triple
@@ -858,11 +932,7 @@ func main() {
 		fixed = append(fixed, []string{"init", t.op()})
 	}
 	if !replay {
-		per := 2
-		if thorough {
-			per = 6
-		}
-		search(ts, per)
+		search(ts, thorough)
 	}
 	corr.Main(corr.Prop{
 		ID: "C44", Model: "C44", Impl: impl, Oracle: oracle, Fixed: fixed, Serial: true,
@@ -889,6 +959,9 @@ func main() {
 			}
 			if childErr != "" {
 				vs = append(vs, corr.Violation{Signature: "C44:race-child-failed", Message: childErr, Ops: []string{"init"}})
+			}
+			for _, c := range crashes {
+				vs = append(vs, corr.Violation{Signature: "C44:runtime-abort:" + strings.SplitN(c, ":", 2)[0], Message: "the Go runtime aborted the process while these two entries ran concurrently on one object: " + c, Ops: []string{"init"}})
 			}
 			sort.Slice(vs, func(i, j int) bool { return vs[i].Signature < vs[j].Signature })
 			return vs
@@ -918,8 +991,8 @@ func main() {
 			return map[string]interface{}{
 				"triples_asked": len(ts), "triples_not_driven_listed": skipped, "triples_without_drivable_entries": nd,
 				"race_reports": nReports, "scenarios_run": nScen, "races_observed": obs, "unmapped_reports": unmapped,
-				"ambiguous_reports": ambiguous, "reports_on_other_objects": len(foreign), "reports_on_other_objects_sample": foreign[:min(5, len(foreign))], "hangs": hangs, "panics": panics, "iterations_per_goroutine": iters,
-				"child": childBin, "model_racy_not_yet_seen_before_retry_1_2": retried, "retried": retriedOps,
+				"ambiguous_reports": ambiguous, "runtime_aborts": crashes, "reports_on_other_objects": len(foreign), "reports_on_other_objects_sample": foreign[:min(5, len(foreign))], "hangs": hangs, "panics": panics, "iterations_per_goroutine": iters,
+				"child": childBin, "model_racy_not_yet_seen_before_retry_1_2": retried, "retried": retriedOps, "timing": timing,
 			}
 		},
 	})
